@@ -241,6 +241,16 @@ pub fn c11_specs(tier: Tier) -> Vec<Spec> {
             specs.push(Spec::new(false, vec![Pat::regex(user), Pat::regex("é+").prio(1)]).with_bsub("s", body));
         }
     }
+    // str-literal subpatterns that switch Unicode off by hand: fine in a byte lexer, to be rejected
+    // in a str lexer when they can match invalid UTF-8
+    for body in ["(?-u:[\\x80-\\xff])", "(?-u:\\xff)", "a(?-u:.)", "(?-u:[^a])", "(?-u:\\xc3\\xa9)"] {
+        for user in ["x(?&s)", "(?&s)+z", "(?&s)"] {
+            for utf8 in [false, true] {
+                specs.push(Spec::new(utf8, vec![Pat::regex(user)]).with_sub("s", body));
+                specs.push(Spec::new(utf8, vec![Pat::skip(user), Pat::token("q")]).with_sub("s", body));
+            }
+        }
+    }
     // byte-string subpatterns
     for (body, user) in [(&b"\xff"[..], "a(?&s)"), (b"[\x80-\xbf]", "(?&s)+"), (b"a|\xfe", "x(?&s)y"), (b".", "(?&s)z")] {
         specs.push(Spec::new(false, vec![Pat::regex(user)]).with_bsub("s", body));
@@ -305,8 +315,11 @@ pub fn c12(a: &Args) -> Report {
         if *sg {
             same += 1;
         }
-        if o1.accepted != o2.accepted {
-            let only_utf8_reason = o1.reject_reason.as_deref().map_or(false, |r| r.contains("non-utf8"));
+        // the byte-mode twin is accepted iff the str definition is, or is rejected ONLY because it
+        // can match invalid UTF-8
+        let only_utf8_reason = o1.reject_reason.as_deref().map_or(false, |r| r.split('+').all(|x| x.starts_with("non-utf8")));
+        let want_bytes_accepted = o1.accepted || (only_utf8_reason && o1.unexpected_reject.is_none());
+        if o1.accepted != o2.accepted || o2.accepted != want_bytes_accepted {
             if !(only_utf8_reason && o2.accepted) {
                 rep.violations.push(Violation {
                     key: format!("MODE-ACCEPTANCE/{}", s.short()),
